@@ -35,6 +35,7 @@ package pebbledb
 //@   call (*github.com/cockroachdb/pebble.Batch).Commit assert [C07.once] commits == 0
 //@   call (*github.com/cockroachdb/pebble.Batch).Commit assert [C07.sync] a1 == pebble.Sync
 //@   call (*github.com/cockroachdb/pebble.Batch).Commit assert [C11.commit] held == 2
+//@   call (*github.com/cockroachdb/pebble.DB).Get assert [C11.rmw] held == 2
 //@   call (*github.com/cockroachdb/pebble.Batch).Commit update commits = commits + 1
 //@   call (*github.com/cockroachdb/pebble.Batch).Commit update commitOK = result == nil
 //@   call (*github.com/cockroachdb/pebble.DB).Set transitively assert [C07.direct] false
@@ -62,6 +63,7 @@ package pebbledb
 //@   call (*github.com/cockroachdb/pebble.DB).Delete update writes = writes + 1
 //@   call (*github.com/cockroachdb/pebble.DB).Delete update writeOK = result == nil
 //@   ensures [C07.commit] result == nil ==> writes == 1 && writeOK
+//@   call (*github.com/cockroachdb/pebble.DB).Get assert [C11.rmw] held == 2
 //@ end
 
 // A scan reads the index and the records from one snapshot: never from the live database.
@@ -153,13 +155,14 @@ package pebbledb
 // the function name and the scanner-wide tolerance read under the lock; the pre-filter uses the same tolerance rule;
 // only a result at or above the threshold is returned.
 //@ func (*PebbleScanner).ScanTopologyExact
-//@   protocol-only C06 C07 C08 C10 C11
+//@   protocol-only C06 C07 C08 C10 C11 C05
 //@   noframe
 //@   include lockproto
 //@   include snapshotproto
 //@   call detection.MatchSignature assert [C08.exact] a0 == topo && a1 == funcName && (isNaN(tolerance) || a3 == tolerance)
 //@   loop 1 invariant [C08.threshold] bestResult != nil ==> unit(bestResult.Confidence) && bestResult.Confidence >= threshold
 //@   return-ensures [C08.threshold] bestResult != nil ==> unit(bestResult.Confidence) && bestResult.Confidence >= threshold
+//@   ensures [C05.zero] true
 
 //@ func (*PebbleScanner).ScanTopologyWithSnapshot
 //@   noframe
@@ -172,6 +175,7 @@ package pebbledb
 //@ func (*PebbleScanner).RebuildIndexes
 //@   protocol-only C06 C07 C10 C11
 //@   noframe
+//@   ensures [C06.zero] true
 //@   include lockproto
 //@   call (*github.com/cockroachdb/pebble.Batch).Commit assert [C07.sync] a1 == pebble.Sync
 //@   call (*github.com/cockroachdb/pebble.Batch).Commit assert [C11.commit] held == 2
@@ -181,10 +185,11 @@ package pebbledb
 
 // The per-hit closures of the scans fetch records from the snapshot they were given, never from the live database.
 //@ func (*PebbleScanner).ScanCandidates$1
-//@   protocol-only C06 C07 C10 C11
+//@   protocol-only C06 C07 C10 C11 C05
 //@   noframe
 //@   include snapshotproto
 //@   ensures [C11.snap] true
+//@   ensures [C05.zero] true
 
 // C08 (exact ⊆ full): before the record is fetched, a hit that was not seen before is dropped only when its packed
 // entropy lies outside the tolerance MatchSignature itself will apply (the signature's own, or the scanner's when
@@ -194,7 +199,7 @@ package pebbledb
 //@ func decodeIndexValue
 //@   ensures [C08.prefilter] true
 //@ func (*PebbleScanner).ScanTopologyWithSnapshot$1
-//@   protocol-only C06 C07 C08 C10 C11
+//@   protocol-only C06 C07 C08 C10 C11 C05
 //@   noframe
 //@   include snapshotproto
 //@   ensures [C11.snap] true
@@ -204,6 +209,7 @@ package pebbledb
 //@   call detection.MatchSignature assert [C08.exact] a0 == *topo && a1 == *funcName && (isNaN(*tolerance) || a3 == *tolerance)
 //@   ensures [C08.threshold] len(*results) >= old(len(*results)) && forall k in old(len(*results))..len(*results) :: unit((*results)[k].Confidence) && (*results)[k].Confidence >= *threshold
 //@   return-ensures [C08.prefilter] !fetched && !old((*seen)[sigID]) ==> isPacked && fabs(sigScore - (*topo).EntropyScore) > effTol(sigTol, *tolerance)
+//@   ensures [C05.zero] true
 
 // RebuildIndexes commits through this closure: every chunk commit is durable.
 //@ func (*PebbleScanner).RebuildIndexes$1
@@ -259,7 +265,7 @@ package pebbledb
 // (absent fields keep their old value, slices reuse their backing array), so a reused destination mixes records.
 //@ func decodeSignature
 //@   trusted
-//@   requires [C18.zero] fieldsReset(sig)
+//@   requires [C18.zero] [C05.zero] [C06.zero] fieldsReset(sig)
 //@   modifies sig
 
 // C18: the export holds one entry per stored record, each decoded into a fresh zero value.
